@@ -2,11 +2,22 @@
 
 package l4proxy
 
-// VerifHook, when set, is called at the linearization points marked with verifEv.
-var VerifHook func(point string, obj any, ok bool)
+import "sync/atomic"
+
+// verifHook, when set, is called at the linearization points marked with verifEv.
+var verifHook atomic.Pointer[func(point string, obj any, ok bool)]
+
+// SetVerifHook installs (or, with nil, removes) the hook.
+func SetVerifHook(f func(point string, obj any, ok bool)) {
+	if f == nil {
+		verifHook.Store(nil)
+		return
+	}
+	verifHook.Store(&f)
+}
 
 func verifEv(point string, obj any, ok bool) {
-	if h := VerifHook; h != nil {
-		h(point, obj, ok)
+	if h := verifHook.Load(); h != nil {
+		(*h)(point, obj, ok)
 	}
 }
